@@ -327,6 +327,16 @@ def cases(tier, seed):
                   'unknown_phase_last_line', 'same_file_twice_different_phases'):
         for ph in ('setup', 'cleanup', 'assert'):
             yield {'kind': 'graph', 'shape': shape, 'phase': ph}
+    # ---- located reports through deep inclusion chains with directory parts, root file named with a directory ----
+    for depth in (1, 2, 3, 4):
+        for dirs in itertools.product(('', 'd/', 'd/e/', '../'), repeat=depth):
+            if depth == 4 and (dirs.count('') + dirs.count('../')) > 2:
+                continue
+            for root_form in ('plain', 'in-dir'):
+                for ph in ('setup', 'cleanup'):
+                    if depth >= 3 and ph == 'cleanup' and root_form == 'plain':
+                        continue
+                    yield {'kind': 'chainloc', 'dirs': list(dirs), 'root_form': root_form, 'phase': ph}
     rng = common.rng_for(seed, ID)
     n_parse = 2500 if tier == 'quick' else 30000
     for _ in range(n_parse):
@@ -878,8 +888,88 @@ def run_graph(case, ctx):
     return {'classes': [('graph', shape, ph)], 'viol': viol, 'inconclusive': inconc}
 
 
+def run_chainloc(case, ctx):
+    """root -> f1 -> f2 -> ... -> fN (each `including DIR/fK.xly`, DIR possibly empty or `../`), an unknown instruction in
+    the deepest file: the report must name every including file and the defective one with the path that leads to it
+    from the directory Exactly was started in, and the right line numbers."""
+    from vf import driver
+    ses = ctx.get_session()
+    d = ses.new_case_dir()
+    base = os.path.join(d, 'w', 'x', 'y')  # room for `../`
+    root_rel = 'cases/main.case' if case['root_form'] == 'in-dir' else 'main.case'
+    files = {}
+    cur_dir = os.path.dirname(root_rel)
+    chain = []  # (shown path, line, text)
+    shown = root_rel
+    names = ['f%d.xly' % (k + 1) for k in range(len(case['dirs']))]
+    # root: two lines before the directive
+    content = {root_rel: ['[%s]' % case['phase'], '# comment', 'including %s%s' % (case['dirs'][0], names[0])]}
+    chain.append((root_rel, 3, 'including %s%s' % (case['dirs'][0], names[0])))
+    for k, (dr, nm) in enumerate(zip(case['dirs'], names)):
+        path = os.path.normpath(os.path.join(cur_dir, dr, nm))
+        cur_dir = os.path.dirname(path)
+        if k + 1 < len(names):
+            lines = [''] * k + ['# c'] + ['including %s%s' % (case['dirs'][k + 1], names[k + 1])]
+            chain.append((path, k + 2, lines[-1]))
+        else:
+            lines = ['', '# c'] + [''] * k + ['no-such-instruction-c07 some arguments']
+            defect = (path, k + 3)
+        content[path] = lines
+    for pth, lines in content.items():
+        files[os.path.join('w/x/y', pth)] = '\n'.join(lines) + '\n'
+    if any(os.path.normpath(os.path.join('w/x/y', p_)).startswith('..') for p_ in content):
+        ses.drop(d)
+        return {'classes': [], 'viol': [], 'evaluations': 0}
+    if not content[root_rel][0].startswith('[act]'):
+        files[os.path.join('w/x/y', root_rel)] += '[act]\n$ true\n'
+    driver.write_files(d, files)
+    r = ses.run([root_rel], cwd=base, mode='normal')
+    ctx.count('c07.defect_reports_checked')
+    viol, inconc = [], []
+    if r.timed_out:
+        inconc.append('watchdog')
+    elif r.exc is not None:
+        viol.append({'what': 'C07 exception escaped: ' + r.exc[-200:], 'detail': {'files': files}})
+    elif r.rc != 65 or r.out != 'SYNTAX_ERROR\n':
+        viol.append({'what': 'C07 chain of %d inclusions with an unknown instruction in the deepest file: outcome %r/%r' %
+                             (len(names), r.out.strip(), r.rc), 'detail': {'files': files, 'stderr': r.err[:600]}})
+    else:
+        err = r.err
+        pos = 0
+        problems = []
+        for (f, ln, text) in chain:
+            m = re.search(r'(?m)^%s, line %d$' % (re.escape(f), ln), err[pos:])
+            if not m:
+                problems.append('including file "%s, line %d" not named (in order)' % (f, ln))
+                continue
+            pos += m.end()
+            if text not in err[pos:pos + len(text) + 10]:
+                problems.append('text of the including directive %r not shown after its location' % text)
+        m = re.search(r'(?m)^%s, line %d$' % (re.escape(defect[0]), defect[1]), err[pos:])
+        if not m:
+            problems.append('location "%s, line %d" of the defective element not reported' % defect)
+        if 'no-such-instruction-c07 some arguments' not in err:
+            problems.append('source text of the defective element not shown')
+        if problems:
+            viol.append({'what': 'C07 report for a defect at %s line %d reached through %r (root given as %s): %s' %
+                                 (defect[0], defect[1], [c[0] for c in chain], root_rel, '; '.join(problems)),
+                         'detail': {'files': files, 'stderr': err[:1500]}})
+    for m_ in _take_m6():
+        viol.append({'what': 'C07 ' + m_, 'detail': {'files': files}})
+    ses.clean_tmp()
+    ses.drop(d)
+    res = {'classes': [('chainloc', len(names), case['root_form'], tuple(bool(x) for x in case['dirs']))], 'viol': viol,
+           'inconclusive': inconc}
+    if len(names) == 3 and case['root_form'] == 'in-dir' and case['dirs'] == ['d/', 'd/e/', '']:
+        res['sample'] = {'files': files, 'expected_chain': chain, 'expected_defect_location': defect,
+                         'stderr': r.err[:600]}
+    return res
+
+
 def run_case(case, ctx):
     k = case['kind']
+    if k == 'chainloc':
+        return run_chainloc(case, ctx)
     if k == 'parse':
         return run_parse(case, ctx)
     if k == 'perm':
